@@ -14,7 +14,7 @@ from tartiflette.language.ast import StringValueNode
 ID = "C13"
 LEVEL = "exploration"
 WORKERS = {"quick": 8, "thorough": 16}
-CASES = {"quick": 27000, "thorough": 600000}  # requests
+CASES = {"quick": 22000, "thorough": 600000}  # requests
 BUDGET = {"quick": 50, "thorough": 560}
 REQUESTS_PER_ENGINE = 30
 RULE = (
@@ -26,7 +26,8 @@ RULE = (
     "the composition. Oracle = reference composition (type-level input hooks -> input-field -> input-object -> argument -> field hooks, "
     "query-side outside schema-side, first declared outermost -> resolver -> output hooks), compared exactly for strings and trails, plus "
     "exact per-(directive instance, hook) invocation counts, plus equality of the delivered values across the literal / variable / "
-    "nested-variable spellings. Distinct = SHA-1 of (placement, request); non-trivial = some element carries >= 2 directives and the "
+    "nested-variable spellings; in half of the worlds the three directives are instances of one class that know their name, and a hook "
+    "receiving another directive's usage is a violation. Distinct = SHA-1 of (placement, request); non-trivial = some element carries >= 2 directives and the "
     "request involves >= 3 stages."
 )
 ASSUMPTIONS = ["relative order of enum-value vs enum-type hooks is not asserted (statement leaves it open); each must run exactly once, each group in declaration order"]
